@@ -48,6 +48,8 @@ FIXED = {
     's_plans':   'C[C[_,_,_], O[C[_,_], C[_,_]], R[_,_]]',
     # random root: the initial activation draws
     's_nroot':   'N[_, _, C[_,_]]',
+    # the last orthogonal region has exactly 8 sub-states (bit view of width 8 at the end of the storage)
+    's_o8':      'C[_, C[_,_], Op[_,_,_,_,_,_,_,_]]',
     # resumable / selectable / composite regions resolved through a utilitarian or random parent
     's_ures':    'U[R[_,_,_], N[R[_,_], S[_,_,_], _], C[_,R[_,_,_]], _]',
 }
